@@ -99,22 +99,25 @@ PROPS = {
     },
     "C06": {
         "level": "other",
-        "kani": {"units": ["c06_validate"], "timeout_quick": 1500, "timeout_thorough": 3600},
+        "kani": {"units": ["c06_validate", "c06_has_default"], "timeout_quick": 1500, "timeout_thorough": 3600},
         "functions": [
             {"path": "typify-impl/src/defaults.rs", "fn": "validate_value"},
+            {"path": "typify-impl/src/defaults.rs", "fn": "validate_default_for_external_enum"},
+            {"path": "typify-impl/src/structs.rs", "fn": "has_default"},
             {"path": "typify-impl/src/convert.rs", "fn": "convert_integer"},
         ],
         "clauses": [
             "P1 validate_value on a leaf kind (Unit, Boolean, Integer, Float, String): Ok ==> the default has the JSON type of the kind",
             "P2 Ok(Intrinsic) ==> the default equals the kind's Rust Default (null, false, 0, 0.0, \"\")",
             "P3 Ok(Generic(g)) ==> g matches the kind and sign (Boolean/true, U64, NZU64 for NonZero types, I64 for negatives)",
+            "P1e an externally tagged enum of simple variants accepts a string default only if it is exactly a variant's wire name",
+            "P4a/P4b has_default: Optional only for the kind's intrinsic default (or for Option/Vec/Map/Unit without default), Default(d) carries d unchanged, a schema default is never dropped",
             "numeric default outside the admitted integer range is rejected when the schema is added: C10/P3 (convert_integer), proved there",
         ],
         "not_decided": [
             "nested defaults (Option / Vec / Map / Tuple / Struct / Enum kinds need the id graph: B-trees with several entries)",
             "rendering of defaults to Rust expressions (value.rs) and emission of Default impls / default functions (token templates)",
             "Native kinds: validate_value accepts every default by design (the code's own comment says an invalid one fails an unwrap() in generated code)",
-            "has_default classification table (structs.rs)",
         ],
         "checker_cmd": "cargo kani -p typify-impl --exact --harness <each>",
         "trusted_base": ["Kani 0.68.0 / CBMC 6.11.0", "kani/common.rs", "serde_json::Number / Value constructors"],
